@@ -1273,6 +1273,26 @@ class _HexGrid:
         """
         return list(self.iter_neighbors(pos, include_center, radius))
 
+    def get_neighborhood_mask(
+        self, pos: Coordinate, include_center: bool = False, radius: int = 1
+    ) -> np.ndarray:
+        """Generate a boolean mask representing the hexagonal neighborhood.
+
+        Args:
+            pos: Center of the neighborhood.
+            include_center: Include the central cell in the neighborhood.
+            radius: The radius of the neighborhood.
+
+        Returns:
+            np.ndarray: A boolean mask representing the neighborhood.
+        """
+        neighborhood = self.get_neighborhood(pos, include_center, radius)
+        mask = np.zeros((self.width, self.height), dtype=bool)
+        if len(neighborhood) > 0:
+            coords = np.array(neighborhood)
+            mask[coords[:, 0], coords[:, 1]] = True
+        return mask
+
 
 class HexSingleGrid(_HexGrid, SingleGrid):
     """Hexagonal SingleGrid: a SingleGrid where neighbors are computed according to a hexagonal tiling of the grid.
